@@ -3,7 +3,7 @@ import KV.Model.TxPool
 /-!
 # C17 — bridge between the regenerated Go arithmetic (tie T1) and the model
 
-`KV/Gen/C17.lean` is re-extracted from `mainchain/tx_pool/tx_list.go` (`txList.Add`) and
+`KV/Gen/C17.lean` is re-extracted from `mainchain/tx_pool/tx_list.go` (`txList.replaceable`, the test `txList.Add` and `TxPool.add` share since the repair of F12) and
 `types/transaction.go` on every check run.  These theorems state that the model's price-bump
 threshold and replacement test are the ones the source contains now (for prices and bumps in the
 ranges the Go types allow: non-negative prices, `priceBump < 2^62`).
@@ -24,21 +24,33 @@ theorem gen_threshold_eq (oldPrice bump : Nat) (hb : bump < 2 ^ 62) :
   rw [this]
   show Int.ediv _ _ = _
   simp [Int.ediv]
-theorem gen_rejects_eq (old t : TxPool.Tx) (bump : Nat) (hb : bump < 2 ^ 62) :
-    Gen.C17.rejectsReplacement (old.price : Int) (t.price : Int)
-        (Gen.C17.priceBumpThreshold (old.price : Int) bump) = !(TxPool.TxList.canReplace old t bump) := by
+theorem gen_accepts_eq (old t : TxPool.Tx) (bump : Nat) (hb : bump < 2 ^ 62) :
+    Gen.C17.acceptsReplacement (old.price : Int) (t.price : Int)
+        (Gen.C17.priceBumpThreshold (old.price : Int) bump) = TxPool.TxList.canReplace old t bump := by
   rw [gen_threshold_eq _ _ hb]
-  unfold Gen.C17.rejectsReplacement Gen.C17.GasPriceCmp Gen.C17.GasPriceIntCmp Big.cmp TxPool.TxList.canReplace
+  unfold Gen.C17.acceptsReplacement Gen.C17.GasPriceCmp Gen.C17.GasPriceIntCmp Big.cmp TxPool.TxList.canReplace
   generalize TxPool.TxList.threshold old.price bump = th
-  have c1 : ((if (old.price : Int) < t.price then (-1 : Int) else if (old.price : Int) = t.price then 0 else 1) ≥ 0) ↔ old.price ≥ t.price := by
+  have c1 : ((if (old.price : Int) < t.price then (-1 : Int) else if (old.price : Int) = t.price then 0 else 1) < 0) ↔ ¬ old.price ≥ t.price := by
     split
     · omega
     · split <;> omega
-  have c2 : ((if (t.price : Int) < th then (-1 : Int) else if (t.price : Int) = th then 0 else 1) < 0) ↔ t.price < th := by
+  have c2 : ((if (t.price : Int) < th then (-1 : Int) else if (t.price : Int) = th then 0 else 1) ≥ 0) ↔ ¬ t.price < th := by
     split
     · omega
     · split <;> omega
-  simp only [c1, c2, Bool.not_not]
+  simp only [c1, c2, Bool.not_or, decide_not]
+
+/-- `txList.replaceable` of the model is the regenerated test applied to the transaction in place -/
+theorem gen_replaceable_eq (l : TxPool.TxList) (t : TxPool.Tx) (bump : Nat) (hb : bump < 2 ^ 62) :
+    l.replaceable t bump =
+      match l.get? t.nonce with
+      | none => true
+      | some old => Gen.C17.acceptsReplacement (old.price : Int) (t.price : Int)
+          (Gen.C17.priceBumpThreshold (old.price : Int) bump) := by
+  unfold TxPool.TxList.replaceable
+  cases l.get? t.nonce with
+  | none => rfl
+  | some old => simp only [gen_accepts_eq old t bump hb]
 
 theorem gen_defaultBump : Gen.C17.DefaultPriceBump = 10 := rfl
 
